@@ -516,6 +516,36 @@ class SArr:
 
 
 # -------------------------------------------------------------- helpers
+#: opt-in (set by a harness): a cast of a symbolic float to a NARROWER float
+#: type (float32 / float16) does not keep the value: it overflows to an
+#: invalid value above the largest finite number of the target type,
+#: underflows to zero and is rounded otherwise (relative error 2**-24 resp.
+#: 2**-11).  Off by default: values pass through unchanged.
+NARROW_FLOAT_CASTS = False
+# (first magnitude that rounds to inf [round-to-nearest-even], relative
+#  rounding error, largest magnitude that rounds to zero)
+_FLT = {4: (2.0 ** 128 - 2.0 ** 103, 2.0 ** -24, 2.0 ** -150),
+        2: (65520.0, 2.0 ** -11, 2.0 ** -25)}
+
+
+def _narrow_float(x, dt):
+    from fractions import Fraction
+    import z3
+    fmax, rel, sub = _FLT[dt.itemsize]
+    x = SFloat.lift(x)
+    ovf = z3.FreshBool("fovf")
+    v = z3.FreshReal("fcast")
+    ax = z3.If(x.v < 0, -x.v, x.v)
+    q = lambda f: z3.RealVal(str(Fraction(f)))
+    err = ax * q(rel) + q(sub)
+    eng = Engine.cur
+    eng.assume(SBool(ovf == (ax >= q(fmax))))
+    eng.assume(SBool(z3.Implies(z3.Not(ovf), z3.And(
+        v - x.v <= err, x.v - v <= err, (v == 0) == (ax <= q(sub)),
+        z3.Implies(x.v >= 0, v >= 0), z3.Implies(x.v <= 0, v <= 0)))))
+    return SFloat(z3.Or(x.nan, ovf), v)
+
+
 def _wrap_int(x, dtype):
     """C-style wrap-around when an integer is cast to a NARROW integer type
     (8/16/32 bit); 64-bit targets and non-integers are left alone"""
@@ -523,6 +553,9 @@ def _wrap_int(x, dtype):
         dt = real_np.dtype(dtype)
     except TypeError:
         return x
+    if NARROW_FLOAT_CASTS and dt.kind == "f" and dt.itemsize < 8 and \
+            isinstance(x, SFloat):
+        return _narrow_float(x, dt)
     if dt.kind not in "iu" or dt.itemsize >= 8 or not isinstance(x, SInt):
         return x
     bits = 8 * dt.itemsize
